@@ -23,7 +23,7 @@ def classify(ev, what, prunes):
         return "C10"
     if what == "outcome":  # a call that panicked or did not return
         return "C10" if prunes > 0 else {"ProcessAttestation": "C09", "Query": "C11"}.get(ev, "C11")
-    if what == "head after call" or what in ("Head", "FindHead") or ev == "ProcessAttestation":
+    if what in ("head after call", "node table after Head", "Head", "FindHead") or ev == "ProcessAttestation":
         return "C09"
     return "C11"
 
@@ -347,3 +347,61 @@ def run_check(pid, tier, seed, replay=None):
                        assumptions=["TLC, SANY, CommunityModules Json", "harness/cmd/fc driver and its root encoding",
                                     "fork-choice semantics of DESIGN.md appendix C"])
     return rc
+
+
+# ---------------------------------------------------------------- binding self-test
+
+CANNED_MUTATION = ("eth2/forkchoice/proto/votestore.go",
+                   "if targetEpoch > vote.NextTargetEpoch || (targetEpoch == 0 && *vote == (VoteTracker{})) {",
+                   "if targetEpoch >= vote.NextTargetEpoch || (targetEpoch == 0 && *vote == (VoteTracker{})) {")
+
+
+def selftest():
+    """Shows that the specification is bound to the code: (1) a recorded trace with one corrupted reply or one dropped
+    event is rejected by ForkChoiceTrace; (2) a canned mutation of zrnt in a scratch worktree yields a VIOLATION."""
+    import subprocess
+    import tempfile
+    ok = True
+    fcbin = lib.build_harness("fc")
+    findings = set(FAMILY_FINDING_DEVIATIONS)
+    trf = gen_and_exec(fcbin, 11, 30, 40, 2, "mixed", "selftest")
+    events = lib.read_ndjson(trf)
+    base = validate_file(trf, 2, findings)
+    nbase = sum(1 for k, _ in parse_prints(base.out) if k == "MISMATCH")
+    lib.log("selftest: unmodified trace: %d mismatches" % nbase)
+    ok &= nbase == 0
+    # (1a) corrupt one logged head
+    idx = next(i for i, e in enumerate(events) if e["ev"] == "Query" and e["q"] == "Head" and e["ret"]["ok"] == 1)
+    ev2 = json.loads(json.dumps(events))
+    ev2[idx]["ret"]["slot"] += 1
+    p2 = os.path.join(lib.scratch("fc"), "corrupt.ndjson")
+    lib.write_ndjson(p2, ev2)
+    n2 = sum(1 for k, _ in parse_prints(validate_file(p2, 2, findings).out) if k == "MISMATCH")
+    lib.log("selftest: corrupted Head reply at line %d -> %d mismatches" % (idx + 1, n2))
+    ok &= n2 >= 1
+    # (1b) drop one accepted ProcessBlock event
+    idx = next(i for i, e in enumerate(events) if e["ev"] == "ProcessBlock" and e["ret"]["ok"] == 1 and e["root"] != 1)
+    ev3 = events[:idx] + events[idx + 1:]
+    p3 = os.path.join(lib.scratch("fc"), "dropped.ndjson")
+    lib.write_ndjson(p3, ev3)
+    n3 = sum(1 for k, _ in parse_prints(validate_file(p3, 2, findings).out) if k == "MISMATCH")
+    lib.log("selftest: dropped ProcessBlock event at line %d -> %d mismatches" % (idx + 1, n3))
+    ok &= n3 >= 1
+    # (2) canned mutation in a scratch worktree
+    wt = tempfile.mkdtemp(prefix="selftest-wt-")
+    os.rmdir(wt)
+    subprocess.run(["git", "-C", "/repo", "worktree", "add", "-q", "--detach", wt, "HEAD"], check=True)
+    try:
+        f, old, new = CANNED_MUTATION
+        src = open(os.path.join(wt, f)).read()
+        assert old in src
+        open(os.path.join(wt, f), "w").write(src.replace(old, new))
+        p = subprocess.run([os.path.join(lib.VERIF, "check"), "C09", "--tier", "quick"], cwd=lib.VERIF,
+                           env=dict(os.environ, VERIF_REPO=wt), stdout=subprocess.PIPE, stderr=subprocess.PIPE, text=True)
+        lib.log("selftest: canned mutation (vote replaced by an equal-epoch vote) -> rc=%d %s" %
+                (p.returncode, [l for l in p.stdout.splitlines() if l.startswith("VIOLATION")][:1]))
+        ok &= p.returncode == 1
+    finally:
+        subprocess.run(["git", "-C", "/repo", "worktree", "remove", "--force", wt])
+        shutil.rmtree(wt, ignore_errors=True)
+    return ok
